@@ -300,10 +300,8 @@ theorem pubE_zero (tbl tblF : Table) (ht : TableZero tbl tblF) :
     obtain ⟨f2, e2, z2⟩ := pubE_zero tbl tblF ht b sb h2
     refine ⟨fc ++ (f1 ++ f2), by rw [fullE, ec, e1, e2], fun hz => ?_⟩
     have hz' := size_append_zero hz
-    have ha : sizeCells sa = 0 := by
-      have := hz'.2; split at this <;> omega
-    have hb : sizeCells sb = 0 := by
-      have := hz'.2; split at this <;> omega
+    have ha : sizeCells sa = 0 := (size_append_zero hz'.2).1
+    have hb : sizeCells sb = 0 := (size_append_zero hz'.2).2
     rw [sizeCells_append, sizeCells_append, zc hz'.1, z1 ha, z2 hb]
   | .tup es, seg, h => by
     rw [pubE] at h
@@ -377,7 +375,8 @@ def TableExt (tbl tblF : Table) (ok : String → Bool) : Prop :=
   ∀ f lay, tbl f = some lay → ok f = true → ∃ layF, tblF f = some layF ∧ layF.self = lay.self ∧ ExtL lay.cells layF.cells
 
 mutual
-theorem pubE_ext (tbl tblF : Table) (ok : String → Bool) (hz : TableZero tbl tblF) (ht : TableExt tbl tblF ok) :
+theorem pubE_ext (tbl tblF : Table) (ok : String → Bool) (hz : TableZero tbl tblF) (ht : TableExt tbl tblF ok)
+    (hT : StatelessOk tbl ok) :
     ∀ (e : Expr) (seg : List LCell), armsZE tbl ok e = true → pubE tbl e = some seg →
       ∃ segF, fullE tblF e = some segF ∧ ExtL seg segF
   | .lit _, seg, _, h => by rw [pubE] at h; cases h; exact ⟨[], by rw [fullE], extL_nil_nil⟩
@@ -388,89 +387,85 @@ theorem pubE_ext (tbl tblF : Table) (ok : String → Bool) (hz : TableZero tbl t
   | .lam _ _, seg, _, h => by rw [pubE] at h; cases h; exact ⟨[], by rw [fullE], extL_nil_nil⟩
   | .un _ a, seg, ha, h => by
     rw [pubE] at h; rw [armsZE] at ha
-    obtain ⟨sF, e1, x1⟩ := pubE_ext tbl tblF ok hz ht a seg ha h
+    obtain ⟨sF, e1, x1⟩ := pubE_ext tbl tblF ok hz ht hT a seg ha h
     exact ⟨sF, by rw [fullE, e1], x1⟩
   | .proj a _, seg, ha, h => by
     rw [pubE] at h; rw [armsZE] at ha
-    obtain ⟨sF, e1, x1⟩ := pubE_ext tbl tblF ok hz ht a seg ha h
+    obtain ⟨sF, e1, x1⟩ := pubE_ext tbl tblF ok hz ht hT a seg ha h
     exact ⟨sF, by rw [fullE, e1], x1⟩
   | .bin _ a b, seg, ha, h => by
     obtain ⟨s1, s2, h1, h2, rfl⟩ := pubE_bin_inv h
     rw [armsZE, Bool.and_eq_true] at ha
-    obtain ⟨f1, e1, x1⟩ := pubE_ext tbl tblF ok hz ht a s1 ha.1 h1
-    obtain ⟨f2, e2, x2⟩ := pubE_ext tbl tblF ok hz ht b s2 ha.2 h2
+    obtain ⟨f1, e1, x1⟩ := pubE_ext tbl tblF ok hz ht hT a s1 ha.1 h1
+    obtain ⟨f2, e2, x2⟩ := pubE_ext tbl tblF ok hz ht hT b s2 ha.2 h2
     exact ⟨f1 ++ f2, by rw [fullE, e1, e2], extL_append _ _ _ _ x1 x2⟩
   | .letE _ a b, seg, ha, h => by
     obtain ⟨s1, s2, h1, h2, rfl⟩ := pubE_letE_inv h
     rw [armsZE, Bool.and_eq_true] at ha
-    obtain ⟨f1, e1, x1⟩ := pubE_ext tbl tblF ok hz ht a s1 ha.1 h1
-    obtain ⟨f2, e2, x2⟩ := pubE_ext tbl tblF ok hz ht b s2 ha.2 h2
+    obtain ⟨f1, e1, x1⟩ := pubE_ext tbl tblF ok hz ht hT a s1 ha.1 h1
+    obtain ⟨f2, e2, x2⟩ := pubE_ext tbl tblF ok hz ht hT b s2 ha.2 h2
     exact ⟨f1 ++ f2, by rw [fullE, e1, e2], extL_append _ _ _ _ x1 x2⟩
   | .letTup _ a b, seg, ha, h => by
     obtain ⟨s1, s2, h1, h2, rfl⟩ := pubE_letTup_inv h
     rw [armsZE, Bool.and_eq_true] at ha
-    obtain ⟨f1, e1, x1⟩ := pubE_ext tbl tblF ok hz ht a s1 ha.1 h1
-    obtain ⟨f2, e2, x2⟩ := pubE_ext tbl tblF ok hz ht b s2 ha.2 h2
+    obtain ⟨f1, e1, x1⟩ := pubE_ext tbl tblF ok hz ht hT a s1 ha.1 h1
+    obtain ⟨f2, e2, x2⟩ := pubE_ext tbl tblF ok hz ht hT b s2 ha.2 h2
     exact ⟨f1 ++ f2, by rw [fullE, e1, e2], extL_append _ _ _ _ x1 x2⟩
   | .assign _ a b, seg, ha, h => by
     obtain ⟨s1, s2, h1, h2, rfl⟩ := pubE_assign_inv h
     rw [armsZE, Bool.and_eq_true] at ha
-    obtain ⟨f1, e1, x1⟩ := pubE_ext tbl tblF ok hz ht a s1 ha.1 h1
-    obtain ⟨f2, e2, x2⟩ := pubE_ext tbl tblF ok hz ht b s2 ha.2 h2
+    obtain ⟨f1, e1, x1⟩ := pubE_ext tbl tblF ok hz ht hT a s1 ha.1 h1
+    obtain ⟨f2, e2, x2⟩ := pubE_ext tbl tblF ok hz ht hT b s2 ha.2 h2
     exact ⟨f1 ++ f2, by rw [fullE, e1, e2], extL_append _ _ _ _ x1 x2⟩
   | .ite c a b, seg, ha, h => by
     obtain ⟨sc, sa, sb, hc, h1, h2, rfl⟩ := pubE_ite_inv h
     rw [armsZE] at ha
     simp only [Bool.and_eq_true] at ha
-    obtain ⟨⟨⟨oc, oa⟩, ea⟩, eb⟩ := ha
-    have za := stateless_sizeL sa (stateless_of_isStateless ea h1)
-    have zb := stateless_sizeL sb (stateless_of_isStateless eb h2)
-    rw [za, zb]
-    simp only [Nat.lt_irrefl, if_false]
-    obtain ⟨fc, ec, xc⟩ := pubE_ext tbl tblF ok hz ht c sc oc hc
-    obtain ⟨f1, e1, x1⟩ := pubE_ext tbl tblF ok hz ht a sa oa h1
-    obtain ⟨f2, e2, z2⟩ := pubE_zero tbl tblF hz b sb h2
-    refine ⟨fc ++ (f1 ++ f2), by rw [fullE, ec, e1, e2], extL_append _ _ _ _ xc ?_⟩
-    have := extL_append _ _ _ _ x1 (extL_nil_of_zero f2 (z2 zb))
-    simpa using this
+    obtain ⟨⟨⟨oc, oa⟩, _⟩, eb⟩ := ha
+    have ob := armsZE_of_stateless tbl ok hT b sb h2 (stateless_of_isStateless eb h2)
+    obtain ⟨fc, ec, xc⟩ := pubE_ext tbl tblF ok hz ht hT c sc oc hc
+    obtain ⟨f1, e1, x1⟩ := pubE_ext tbl tblF ok hz ht hT a sa oa h1
+    obtain ⟨f2, e2, x2⟩ := pubE_ext tbl tblF ok hz ht hT b sb ob h2
+    exact ⟨fc ++ (f1 ++ f2), by rw [fullE, ec, e1, e2], extL_append _ _ _ _ xc (extL_append _ _ _ _ x1 x2)⟩
   | .tup es, seg, ha, h => by
     rw [pubE] at h; rw [armsZE] at ha
-    obtain ⟨sF, e1, x1⟩ := pubL_ext tbl tblF ok hz ht es seg ha h
+    obtain ⟨sF, e1, x1⟩ := pubL_ext tbl tblF ok hz ht hT es seg ha h
     exact ⟨sF, by rw [fullE, e1], x1⟩
   | .app f args, seg, ha, h => by
     obtain ⟨s1, s2, h1, h2, rfl⟩ := pubE_app_inv h
     rw [armsZE, Bool.and_eq_true] at ha
-    obtain ⟨f1, e1, x1⟩ := pubE_ext tbl tblF ok hz ht f s1 ha.1 h1
-    obtain ⟨f2, e2, x2⟩ := pubL_ext tbl tblF ok hz ht args s2 ha.2 h2
+    obtain ⟨f1, e1, x1⟩ := pubE_ext tbl tblF ok hz ht hT f s1 ha.1 h1
+    obtain ⟨f2, e2, x2⟩ := pubL_ext tbl tblF ok hz ht hT args s2 ha.2 h2
     exact ⟨f1 ++ f2, by rw [fullE, e1, e2], extL_append _ _ _ _ x1 x2⟩
   | .mem a site, seg, ha, h => by
     obtain ⟨s, h1, rfl⟩ := pubE_mem_inv h
     rw [armsZE] at ha
-    obtain ⟨f1, e1, x1⟩ := pubE_ext tbl tblF ok hz ht a s ha h1
+    obtain ⟨f1, e1, x1⟩ := pubE_ext tbl tblF ok hz ht hT a s ha h1
     exact ⟨f1 ++ [.mem site], by rw [fullE, e1], extL_append _ _ _ _ x1 (extL_single _ _ (by simp [ExtC]))⟩
   | .delay n a t site, seg, ha, h => by
     obtain ⟨s1, s2, h1, h2, rfl⟩ := pubE_delay_inv h
     rw [armsZE, Bool.and_eq_true] at ha
-    obtain ⟨f1, e1, x1⟩ := pubE_ext tbl tblF ok hz ht a s1 ha.1 h1
-    obtain ⟨f2, e2, x2⟩ := pubE_ext tbl tblF ok hz ht t s2 ha.2 h2
+    obtain ⟨f1, e1, x1⟩ := pubE_ext tbl tblF ok hz ht hT a s1 ha.1 h1
+    obtain ⟨f2, e2, x2⟩ := pubE_ext tbl tblF ok hz ht hT t s2 ha.2 h2
     exact ⟨f1 ++ f2 ++ [.delay site n], by rw [fullE, e1, e2],
       extL_append _ _ _ _ (extL_append _ _ _ _ x1 x2) (extL_single _ _ (by simp [ExtC]))⟩
   | .call f args site, seg, ha, h => by
     obtain ⟨s, lay, h1, hf, rfl⟩ := pubE_call_inv h
     rw [armsZE, Bool.and_eq_true] at ha
-    obtain ⟨f1, e1, x1⟩ := pubL_ext tbl tblF ok hz ht args s ha.1 h1
+    obtain ⟨f1, e1, x1⟩ := pubL_ext tbl tblF ok hz ht hT args s ha.1 h1
     obtain ⟨layF, hF, hself, hx⟩ := ht f lay hf ha.2
     exact ⟨f1 ++ [.child site layF.self layF.cells], by rw [fullE, e1, hF],
       extL_append _ _ _ _ x1 (extL_single _ _ (by simp [ExtC, hself, hx]))⟩
-theorem pubL_ext (tbl tblF : Table) (ok : String → Bool) (hz : TableZero tbl tblF) (ht : TableExt tbl tblF ok) :
+theorem pubL_ext (tbl tblF : Table) (ok : String → Bool) (hz : TableZero tbl tblF) (ht : TableExt tbl tblF ok)
+    (hT : StatelessOk tbl ok) :
     ∀ (es : List Expr) (seg : List LCell), armsZL tbl ok es = true → pubL tbl es = some seg →
       ∃ segF, fullL tblF es = some segF ∧ ExtL seg segF
   | [], seg, _, h => by rw [pubL] at h; cases h; exact ⟨[], by rw [fullL], extL_nil_nil⟩
   | e :: es, seg, ha, h => by
     obtain ⟨s1, s2, h1, h2, rfl⟩ := pubL_cons_inv h
     rw [armsZL, Bool.and_eq_true] at ha
-    obtain ⟨f1, e1, x1⟩ := pubE_ext tbl tblF ok hz ht e s1 ha.1 h1
-    obtain ⟨f2, e2, x2⟩ := pubL_ext tbl tblF ok hz ht es s2 ha.2 h2
+    obtain ⟨f1, e1, x1⟩ := pubE_ext tbl tblF ok hz ht hT e s1 ha.1 h1
+    obtain ⟨f2, e2, x2⟩ := pubL_ext tbl tblF ok hz ht hT es s2 ha.2 h2
     exact ⟨f1 ++ f2, by rw [fullL, e1, e2], extL_append _ _ _ _ x1 x2⟩
 end
 
@@ -489,7 +484,7 @@ theorem table_ext (P : Prog) : ∀ n, TableExt (table P n) (tableF P n) (okTable
       | some cells =>
         simp only [hb, Option.some.injEq] at h
         subst h
-        obtain ⟨cellsF, eF, xF⟩ := pubE_ext _ _ _ (table_zero P n) (table_ext P n) d.body cells hok hb
+        obtain ⟨cellsF, eF, xF⟩ := pubE_ext _ _ _ (table_zero P n) (table_ext P n) (table_statelessOk P n) d.body cells hok hb
         exact ⟨⟨d.selfShape, cellsF⟩, by simp [tableF, hd, eF], rfl, xF⟩
 
 /-- **the full layout of a function of the wide class**: it exists, is well formed, covers the body, and is the published
@@ -500,9 +495,61 @@ theorem full_layout_exists (n : Nat) (P : Prog) (d : FnDecl) (lay : LNode)
     ∃ full, fullFnN n P d = some full ∧ full.Ok ∧ full.self = lay.self ∧ d.selfShape = full.self ∧
       ExtL lay.cells full.cells ∧ Covers P full.cells d.body := by
   obtain ⟨hself, hcells⟩ := publishFnN_inv hpub
-  obtain ⟨cellsF, eF, xF⟩ := pubE_ext _ _ _ (table_zero P n) (table_ext P n) d.body lay.cells harms hcells
+  obtain ⟨cellsF, eF, xF⟩ := pubE_ext _ _ _ (table_zero P n) (table_ext P n) (table_statelessOk P n) d.body lay.cells harms hcells
   refine ⟨⟨d.selfShape, cellsF⟩, by simp [fullFnN, eF], ?_, hself.symm, rfl, xF, ?_⟩
   · exact (fullE_good _ (tableF_ok P hs n) d.body cellsF hd eF).1
   · exact fullE_covers P _ (tableF_covers P n) d.body cellsF cellsF eF (fun _ hc => hc)
+
+/-! ### after the repair of F3 the published layout IS the layout of all sites -/
+
+mutual
+theorem fullE_eq_pubE (tbl : Table) : ∀ e : Expr, fullE tbl e = pubE tbl e
+  | .lit _ => by rw [fullE, pubE]
+  | .var _ => by rw [fullE, pubE]
+  | .now => by rw [fullE, pubE]
+  | .samplerate => by rw [fullE, pubE]
+  | .self => by rw [fullE, pubE]
+  | .lam _ _ => by rw [fullE, pubE]
+  | .un _ a => by rw [fullE, pubE, fullE_eq_pubE tbl a]
+  | .proj a _ => by rw [fullE, pubE, fullE_eq_pubE tbl a]
+  | .bin _ a b => by rw [fullE, pubE, fullE_eq_pubE tbl a, fullE_eq_pubE tbl b]; cases pubE tbl a <;> cases pubE tbl b <;> rfl
+  | .letE _ a b => by rw [fullE, pubE, fullE_eq_pubE tbl a, fullE_eq_pubE tbl b]; cases pubE tbl a <;> cases pubE tbl b <;> rfl
+  | .letTup _ a b => by rw [fullE, pubE, fullE_eq_pubE tbl a, fullE_eq_pubE tbl b]; cases pubE tbl a <;> cases pubE tbl b <;> rfl
+  | .assign _ a b => by rw [fullE, pubE, fullE_eq_pubE tbl a, fullE_eq_pubE tbl b]; cases pubE tbl a <;> cases pubE tbl b <;> rfl
+  | .ite c a b => by rw [fullE, pubE, fullE_eq_pubE tbl c, fullE_eq_pubE tbl a, fullE_eq_pubE tbl b]; cases pubE tbl c <;> cases pubE tbl a <;> cases pubE tbl b <;> rfl
+  | .tup es => by rw [fullE, pubE, fullL_eq_pubL tbl es]
+  | .app f args => by rw [fullE, pubE, fullE_eq_pubE tbl f, fullL_eq_pubL tbl args]; cases pubE tbl f <;> cases pubL tbl args <;> rfl
+  | .mem a _ => by rw [fullE, pubE, fullE_eq_pubE tbl a]; cases pubE tbl a <;> rfl
+  | .delay _ a t _ => by rw [fullE, pubE, fullE_eq_pubE tbl a, fullE_eq_pubE tbl t]; cases pubE tbl a <;> cases pubE tbl t <;> rfl
+  | .call f args _ => by rw [fullE, pubE, fullL_eq_pubL tbl args]; cases pubL tbl args <;> cases tbl f <;> rfl
+theorem fullL_eq_pubL (tbl : Table) : ∀ es : List Expr, fullL tbl es = pubL tbl es
+  | [] => by rw [fullL, pubL]
+  | e :: es => by rw [fullL, pubL, fullE_eq_pubE tbl e, fullL_eq_pubL tbl es]; cases pubE tbl e <;> cases pubL tbl es <;> rfl
+end
+
+theorem tableF_eq_table (P : Prog) : ∀ n, tableF P n = table P n
+  | 0 => rfl
+  | n + 1 => by
+    funext f
+    simp only [tableF, table, tableF_eq_table P n, fullE_eq_pubE]
+    cases findFn P.fns f with
+    | none => rfl
+    | some d => simp only; cases pubE (table P n) d.body <;> rfl
+
+theorem fullFnN_eq_publishFnN (n : Nat) (P : Prog) (d : FnDecl) : fullFnN n P d = publishFnN n P d := by
+  simp only [fullFnN, publishFnN, publishEN, tableF_eq_table, fullE_eq_pubE]
+  cases pubE (table P n) d.body <;> rfl
+
+theorem fullFn_eq_publishFn (P : Prog) (d : FnDecl) : fullFn P d = publishFn P d := fullFnN_eq_publishFnN _ P d
+
+/-- **the published layout covers the body, for EVERY program** (no class condition): every stateful construct of the
+body, in either arm of any `if`, owns a cell of its kind -/
+theorem publishFnN_covers (n : Nat) (P : Prog) (d : FnDecl) (lay : LNode) (hpub : publishFnN n P d = some lay) :
+    lay.self = d.selfShape ∧ Covers P lay.cells d.body := by
+  obtain ⟨hself, hcells⟩ := publishFnN_inv hpub
+  refine ⟨hself, ?_⟩
+  have hF : fullE (tableF P n) d.body = some lay.cells := by
+    rw [fullE_eq_pubE, tableF_eq_table]; exact hcells
+  exact fullE_covers P _ (tableF_covers P n) d.body lay.cells lay.cells hF (fun _ hc => hc)
 
 end Mimium.LiveCoding
